@@ -46,8 +46,11 @@ fn exp_bwd(a: u64, n: u64, unit: u64) -> Option<u64> {
 }
 fn exp_between(a: u64, b: u64, unit: u64) -> (usize, Option<usize>) {
     if pos(b) >= pos(a) {
-        let d = ((pos(b) - pos(a)) / unit as u128) as usize;
-        (d, Some(d))
+        // "(usize::MAX, None) if the number of steps would overflow usize" (core::iter::Step): only possible on 32-bit targets
+        match usize::try_from((pos(b) - pos(a)) / unit as u128) {
+            Ok(d) => (d, Some(d)),
+            Err(_) => (usize::MAX, None),
+        }
     } else {
         (0, None)
     }
@@ -109,6 +112,7 @@ fn provided_variants<T: Step + Copy>(rep: &mut Report, ty: &str, x: T, n: u64, e
 
 fn check_addr(rep: &mut Report, a: u64, b: u64, n: u64, cn: &str) {
     rep.eval();
+    let n = n as usize as u64; // the count the trait actually receives (identity on 64-bit targets)
     let va = VirtAddr::new(a);
     let ctx = |what: &str, e: J, g: J| {
         J::obj(vec![("type", J::s("VirtAddr")), ("start", J::hex(a)), ("count", J::hex(n)), ("other", J::hex(b)), ("what", J::s(what)), ("expected", e), ("got", g)])
@@ -192,6 +196,7 @@ fn check_addr(rep: &mut Report, a: u64, b: u64, n: u64, cn: &str) {
 
 fn check_page<S: PageSize>(rep: &mut Report, a: u64, b: u64, n: u64, tag: &str, cn: &str) {
     rep.eval();
+    let n = n as usize as u64; // the count the trait actually receives (identity on 64-bit targets)
     let a = a & !(S::SIZE - 1);
     let b = b & !(S::SIZE - 1);
     let pa = Page::<S>::containing_address(VirtAddr::new(a));
@@ -259,6 +264,7 @@ fn check_page<S: PageSize>(rep: &mut Report, a: u64, b: u64, n: u64, tag: &str, 
 
 fn check_index(rep: &mut Report, s: u16, e: u16, n: u64) {
     rep.eval();
+    let n = n as usize as u64; // the count the trait actually receives (identity on 64-bit targets)
     let is = PageTableIndex::new(s);
     let ie = PageTableIndex::new(e);
     let ctx = |what: &str| J::obj(vec![("type", J::s("PageTableIndex")), ("start", J::U(s as u64)), ("count", J::hex(n)), ("other", J::U(e as u64)), ("what", J::s(what))]);
@@ -325,10 +331,11 @@ fn pick_addr(r: &mut Rng) -> (u64, &'static str) {
 pub fn run(a: &Args, rep: &mut Report) {
     let mut r = Rng::derive(a.seed, "c05", a.shard);
     // PageTableIndex: exhaustive starts x ends(strided) x counts
+    let (sw0, sw) = a.sweep();
     if a.shard == 0 {
         let big = [512u64, 513, 1023, 1024, 65535, 65536, 1 << 32, u64::MAX, u64::MAX - 511];
-        for s in 0..512u16 {
-            for n in 0..=1024u64 {
+        for s in (0..512u16).skip(sw0).step_by(sw) {
+            for n in (0..=1024u64).skip(sw0 % 13).step_by(if sw == 1 { 1 } else { 13 }) {
                 let e = ((s as u64 * 7 + n * 13) % 512) as u16;
                 check_index(rep, s, e, n);
             }
@@ -336,12 +343,14 @@ pub fn run(a: &Args, rep: &mut Report) {
                 check_index(rep, s, 511 - s, n);
             }
         }
-        for s in 0..512u16 {
-            for e in 0..512u16 {
+        for s in (0..512u16).skip(sw0).step_by(sw) {
+            for e in (0..512u16).skip(sw0 % 13).step_by(if sw == 1 { 1 } else { 13 }) {
                 check_index(rep, s, e, (e as u64).wrapping_sub(s as u64));
             }
         }
-        rep.exhaustive.push("PageTableIndex: 512 starts x counts 0..=1024 and 9 big counts; all 512^2 (start,end) pairs for steps_between".into());
+        if sw == 1 {
+            rep.exhaustive.push("PageTableIndex: 512 starts x counts 0..=1024 and 9 big counts; all 512^2 (start,end) pairs for steps_between".into());
+        }
         rep.class("index|exhaustive-starts-counts");
         rep.class("index|exhaustive-pairs");
     }
